@@ -28,7 +28,7 @@ class DScn:
         prefix = P.get('prefix', 'p')
         w.clock_fn = lambda: 0.0  # construction is not the subject: concrete clock while the real __init__ methods run
         try:
-            self.dc = dc = L.djangocache.DjangoCache(w.dir, {'SHARDS': shards, 'KEY_PREFIX': prefix, 'VERSION': 1, 'OPTIONS': {'cull_limit': 0}})
+            self.dc = dc = L.djangocache.DjangoCache(w.dir, {'SHARDS': shards, 'KEY_PREFIX': prefix, 'VERSION': 1, 'OPTIONS': {'cull_limit': 0, 'size_limit': shards * 2 ** 28}})
             for sh in dc._cache._shards:
                 sh._con
         finally:
@@ -403,6 +403,8 @@ def jobs(tier):
     for op in OPS:
         for shards in ((1,) if tier == 'quick' else (1, 2)):
             out.append(dict(id='django.%s.shards=%d' % (op, shards), func='ob_django', params=dict(op=op, shards=shards), tags=['C19', 'C08'], functions=F, weight=5))
+    for op in ('has_key', 'get', 'set', 'delete', 'touch', 'incr', 'get_many'):
+        out.append(dict(id='django.%s.shards=3' % op, func='ob_django', params=dict(op=op, shards=3), tags=['C19', 'C13'], functions=F, weight=6))
     for op in ('set', 'add', 'touch', 'delete', 'pop', 'incr', 'decr'):
         out.append(dict(id='django.busy.noretry.%s' % op, func='ob_django_busy', params=dict(op=op, shards=1), tags=['C19', 'C14'], functions=F, weight=3, must_reach=['lock_busy']))
     for op in ('set', 'add', 'touch', 'delete', 'pop', 'incr', 'set_many', 'delete_many', 'get_or_set', 'incr_version', 'clear'):
